@@ -17,7 +17,7 @@ RULE = ("Hypothesis-generated histories (<=15 ops) over A<-B<-C with parameters 
         "instantiate), sh shared mutable default, c/cn constants, pi per_instance=False, s Selector, se empty Selector "
         "(check_on_set=False): instance creation (with keywords), instance/class/subclass sets (incl. re-assigning the "
         "identical default object), in-place mutation of values, instance- and class-level Parameter attribute edits "
-        "(bounds, doc, objects append/assign), temporary update() contexts, bare reads creating per-instance copies; oracle = ownership model for values "
+        "(bounds, doc, objects append/assign; a subclass that has its own Parameter object must not reach its ancestors), Composite sets at every level, temporary update() contexts, bare reads creating per-instance copies; oracle = ownership model for values "
         "+ frame conditions for metadata after every op. Non-trivial = an instance is created between two class-level "
         "changes, or an in-place mutation / metadata edit follows the creation of a second instance; distinct = case hash.")
 ASSUMPTIONS = [
@@ -27,7 +27,7 @@ ASSUMPTIONS = [
 ]
 SIZES = {"quick": 1200, "thorough": 8000}
 
-VP = ["x", "l", "d", "sh", "c", "cn", "pi", "s", "se", "lr"]
+VP = ["x", "l", "d", "sh", "c", "cn", "pi", "s", "se", "lr", "u", "v"]
 MUT = ["l", "sh", "c", "d", "lr"]
 ATTRS = ["bounds_x", "doc_x", "objs_append_s", "objs_assign_s", "objs_append_se", "bounds_pi", "doc_l", "step_x"]
 
@@ -50,6 +50,8 @@ def _ops():
         st.tuples(st.just("iattr"), _i, st.integers(0, len(ATTRS) - 1), _k),
         st.tuples(st.just("cattr"), _c, st.integers(0, len(ATTRS) - 1), _k),
         st.tuples(st.just("read"), _i, st.integers(0, len(VP) - 1)),
+        st.tuples(st.just("icomp"), _i, _k),
+        st.tuples(st.just("ccomp"), _c, _k),
     )
 
 
@@ -118,6 +120,9 @@ def execute(case):
         "s": param.Selector(objects=[1, 2, 3]),
         "se": param.Selector(),
         "lr": param.List(default=[7], allow_refs=True),
+        "u": param.Number(default=11), "v": param.Number(default=12),
+        # assigning the composite assigns its two components, on the object (instance, class or subclass) it is assigned on
+        "uv": param.Composite(attribs=["u", "v"]),
     }
     A = type("A", (param.Parameterized,), ns)
     B = type("B", (A,), {"x": param.Number(default=3)} if case["b_redeclares_x"] else {})
@@ -169,7 +174,7 @@ def execute(case):
         for K in classes:
             for n in VP:
                 got, want = getattr(K, n), cdefault(K, n)
-                if n in ("x", "pi", "s", "se"):
+                if n in ("x", "pi", "s", "se", "u", "v"):
                     ok = got == want
                 else:
                     ok = got is want
@@ -184,10 +189,10 @@ def execute(case):
             o = rec["obj"]
             for n in VP:
                 got, want = getattr(o, n), expect(rec, n)
-                if n in rec.get("loose", ()) and (got is cdefault(rec["cls"], n) or (n in ("x", "pi", "s", "se") and
+                if n in rec.get("loose", ()) and (got is cdefault(rec["cls"], n) or (n in ("x", "pi", "s", "se", "u", "v") and
                                                                                       got == cdefault(rec["cls"], n))):
                     continue
-                if n in ("x", "pi", "s", "se"):
+                if n in ("x", "pi", "s", "se", "u", "v"):
                     if got != want:
                         res.fail("C12.instance_value", f"after {tag}: inst{idx}:{rec['cls'].__name__}.{n} is {got!r}, "
                                                        f"ownership model says {want!r}")
@@ -220,7 +225,7 @@ def execute(case):
                 res.fail("C12.metadata_leak", f"after {tag}: Parameter metadata seen by {key} changed: {diff}")
 
     def newval(n, k):
-        if n in ("x", "pi"):
+        if n in ("x", "pi", "u", "v"):
             return k
         if n in ("l", "sh", "c", "cn", "lr"):
             return [k, k]
@@ -334,6 +339,21 @@ def execute(case):
                 frame(tag, before, lambda key: key[1] == "pi")
             else:
                 frame(tag, before, lambda key: key == (idx, n))
+        elif kind == "icomp":
+            if not insts:
+                continue
+            idx = op[1] % len(insts)
+            rec = insts[idx]
+            rec["obj"].uv = [op[2], op[2] + 20]
+            rec["own"]["u"], rec["own"]["v"] = op[2], op[2] + 20
+            rec.get("loose", set()).difference_update({"u", "v"})
+            frame(tag, before, lambda key: key[0] == idx and key[1] in ("u", "v", "uv"))
+        elif kind == "ccomp":
+            K = classes[op[1]]
+            K.uv = [op[2], op[2] + 30]
+            cown[(K, "u")], cown[(K, "v")] = op[2], op[2] + 30
+            n_cls_changes += 1
+            res.label("class_level_composite_set")
         elif kind == "imut":
             if not insts:
                 continue
@@ -413,9 +433,14 @@ def execute(case):
                     frame(tag, before, lambda key: key == (idx, pn))
             else:
                 n_cls_changes += 1
-                # class-level metadata edit: other parameters must be untouched; who else sees the edit
-                # (subclasses, parents sharing the Parameter object, instances) is not claimed
-                frame(tag, before, lambda key: key[1] == pn)
+                # class-level metadata edit: other parameters must be untouched; who else sees the edit (subclasses,
+                # instances) is not claimed - except that an ancestor class which holds a *different* Parameter object
+                # (the class edited here has its own, by declaration or by a class-level assignment) must not see it
+                kpar = _static(holder, pn)
+                shielded = {P.__name__ for P in holder.__mro__[1:] if P in classes and _static(P, pn) is not kpar}
+                if shielded:
+                    res.label("class_level_metadata_edit_with_own_parameter")
+                frame(tag, before, lambda key: key[1] == pn and key[0] not in shielded)
         elif kind == "read":
             if not insts:
                 continue
